@@ -303,6 +303,23 @@ Check C11_wasm_history : forall (cur : config) (us : list config) (k : key), wf 
   = match last_explicit k us with Some v => Some (Some v) | None => get k cur end.
 Print Assumptions C11_wasm_history.
 
+(* FINDING FC11a (known/C11.json, fixes/FC11a.diff).  "Rules the user has not mentioned take
+   their curated defaults when a user configuration is overlaid": for the configuration u2 that is
+   fill_with_curated curated u2.  harper-wasm instead lints under the merged history (C11_wasm_history), and
+   the two differ: SpellCheck switched off by u1 and left null by u2 stays off *)
+Theorem C11_wasm_null_reset_refuted :
+  exists (u1 u2 : config) (k : key),
+    wf u1 /\ wf u2 /\ get k u2 = Some None /\
+    is_rule_enabled (fill_with_curated curated_cfg u2) k = true /\
+    is_rule_enabled (fill_with_curated curated_cfg (merge_seq (clear curated_cfg) [u1; u2])) k = false.
+Proof. exact wasm_null_does_not_reset. Qed.
+Check C11_wasm_null_reset_refuted :
+  exists (u1 u2 : config) (k : key),
+    wf u1 /\ wf u2 /\ get k u2 = Some None /\
+    is_rule_enabled (fill_with_curated curated_cfg u2) k = true /\
+    is_rule_enabled (fill_with_curated curated_cfg (merge_seq (clear curated_cfg) [u1; u2])) k = false.
+Print Assumptions C11_wasm_null_reset_refuted.
+
 (* the generated table is what the theorems assume of it: both rule maps and the curated config are
    BTreeMaps, every curated value is explicit, a name listed in both maps carries one default, every
    config key is a registered name, and no rule name contains U+0000/U+0001 *)
